@@ -129,7 +129,9 @@ def process(
         else:
             if not ready:
                 continue
-            print(colored(f"READY {job_path}", "yellow"), end="")
+            # Not a job directory (e.g. a dangling link): no tags, no state
+            print(colored(f"READY {job}", "yellow"))
+            continue
 
         if tags:
             print(f""" {" ".join(f"{k}={v}" for k, v in info.tags.items())}""")
